@@ -234,6 +234,12 @@ func readObjectDepth(ber []byte, offset int, depth int) (asn1Object, int, error)
 			if err != nil {
 				return nil, 0, err
 			}
+			if !indefinite && offset > contentEnd {
+				// A member must end inside its (definite-length) parent. Without this check the
+				// parent's caller resumes at the parent's declared end, inside the member, and the
+				// same bytes are parsed again at every level: work and output double per level.
+				return nil, 0, errors.New("ber2der: BER object extends beyond its parent")
+			}
 			subObjects = append(subObjects, subObj)
 
 			if indefinite {
@@ -266,5 +272,6 @@ func isIndefiniteTermination(ber []byte, offset int) (bool, error) {
 		return false, errors.New("ber2der: Invalid BER format")
 	}
 
-	return bytes.Index(ber[offset:], []byte{0x0, 0x0}) == 0, nil
+	// (not bytes.Index(...) == 0, which scans the whole remainder after every member)
+	return bytes.HasPrefix(ber[offset:], []byte{0x0, 0x0}), nil
 }
